@@ -34,10 +34,10 @@ Section RoundTrip.
                          exists r, sem "" "And" [] [Some a; Some b] = Some [r] /\ truth r = Some (x && y).
   Hypothesis const_trip : forall z c, const_val V sem (LInt z) = Some c -> trip c = Some (Z.to_nat z).
 
-  Theorem roundtrip_sound :
-    forall kw prename rename infun brk fname ivals g f sk wb cic afuel orders g' xs vs fg k pre es,
-      export_cf kw prename rename infun None None false fname ivals g = Some (f, sk) ->
-      nested_okb kw prename rename infun brk ivals g = true ->
+  Theorem roundtrip_ops_sound :
+    forall kw prename rename infun brk use_ops fname ivals g f sk wb cic afuel orders g' xs vs fg k pre es,
+      export_cf kw prename rename infun use_ops None false fname ivals g = Some (f, sk) ->
+      nested_ops_okb kw prename rename infun brk use_ops ivals g = true ->
       (brk = true -> forall v, exists b, truth v = Some b) ->
       (* the exported function lies in the class of C01's converter theorem *)
       (wb = true -> forall v, exists b, truth v = Some b) ->
@@ -52,14 +52,32 @@ Section RoundTrip.
       end ->
       eval_graph V sem truth trip of_nat of_bool limit (S k) [] g' xs = Some vs.
   Proof.
-    intros kw prename rename infun brk fname ivals g f sk wb cic afuel orders g' xs vs fg k pre es He Hok Hbrk Hwb Hcic Hb Hpre Hes Hnd Htr Hfg Hk Hg.
+    intros kw prename rename infun brk use_ops fname ivals g f sk wb cic afuel orders g' xs vs fg k pre es He Hok Hbrk Hwb Hcic Hb Hpre Hes Hnd Htr Hfg Hk Hg.
     destruct (export_cf_aparams _ _ _ _ _ _ _ _ _ _ _ _ He) as [Hap _].
-    pose proof (export_cf_sound V sem truth trip of_nat of_bool limit globals kw prename rename infun sem_identity truth_of_bool brk sem_not Hbrk
-                  fname ivals g f sk He Hok (depth_graph g) fg xs ltac:(lia) Hfg) as E.
+    pose proof (export_cf_ops_sound V sem truth trip of_nat of_bool limit globals kw prename rename infun sem_identity truth_of_bool brk sem_not Hbrk
+                  use_ops fname ivals g f sk He Hok (depth_graph g) fg xs ltac:(lia) Hfg) as E.
     destruct (init_env V sem ivals) as [outer|]; [|contradiction]. rewrite Hg in E.
     exact (translate_nested_correct V sem truth trip of_nat of_bool limit limit globals sem_identity truth_of_bool sem_not sem_and
              (le_n limit) const_trip wb cic afuel orders f g' xs vs (S (depth_graph g)) k pre es Hwb Hcic Hb Hpre Hes Hap Hnd Htr E Hk).
   Qed.
+
+  Theorem roundtrip_sound :
+    forall kw prename rename infun brk fname ivals g f sk wb cic afuel orders g' xs vs fg k pre es,
+      export_cf kw prename rename infun None None false fname ivals g = Some (f, sk) ->
+      nested_okb kw prename rename infun brk ivals g = true ->
+      (brk = true -> forall v, exists b, truth v = Some b) ->
+      (wb = true -> forall v, exists b, truth v = Some b) ->
+      (forall c b pe v, cic c = Some b -> eval_expr V sem globals pe c = Some v -> ptruth V truth v = Some b) ->
+      f_body f = (pre ++ [SReturn es])%list -> pre_ok globals cic afuel wb 11 pre [SReturn es] [] = true -> forallb expr_ok es = true ->
+      NoDup (f_tparams f) ->
+      translate false globals cic afuel orders f = Some g' ->
+      depth_graph g <= S fg -> stmt_depth_fuel <= k ->
+      match init_env V sem ivals with
+      | Some outer => eval_graph V sem truth trip of_nat of_bool limit (S (S fg)) outer g xs = Some vs
+      | None => False
+      end ->
+      eval_graph V sem truth trip of_nat of_bool limit (S k) [] g' xs = Some vs.
+  Proof. intros kw prename rename infun brk. exact (roundtrip_ops_sound kw prename rename infun brk None). Qed.
 End RoundTrip.
 
 (* ---- a worked instance: every hypothesis evaluated, the graph obtained back from the exported function computes
@@ -81,4 +99,15 @@ Theorem roundtrip_example :
 Proof.
   split; [vm_compute; reflexivity|]. split; [vm_compute; reflexivity|]. split; [vm_compute; reflexivity|].
   eexists. split; [vm_compute; reflexivity|]. repeat split; vm_compute; reflexivity.
+Qed.
+
+(* the same with use_operators on: the exported function with operator expressions is in the converter's class too *)
+Theorem roundtrip_ops_example :
+  nested_ops_okb kwlist (cleanup kwlist) (cleanup kwlist) false false (Some true) iv_nested g_nested = true /\
+  exists f, export_cf kwlist (cleanup kwlist) (cleanup kwlist) false (Some true) None false "g" iv_nested g_nested = Some (f, []) /\
+    rt_class (Some (f, [])) = (true, true, true) /\
+    exists g', back f = Some g' /\ zgraph_rt g' [(-3)%Z] = Some [94%Z] /\ zgraph_rt g' [5%Z] = Some [(-10)%Z].
+Proof.
+  split; [vm_compute; reflexivity|]. eexists. split; [vm_compute; reflexivity|]. split; [vm_compute; reflexivity|].
+  eexists. split; [vm_compute; reflexivity|]. split; vm_compute; reflexivity.
 Qed.
